@@ -9,7 +9,7 @@ from vf.oracles import is_missing
 PROPERTY = "C17"
 TECHNIQUE = "icontract post-conditions on compute_vote_vectors / majority_vote / ext_confusion_matrix against a pure-Python counting reference model, over generated label matrices in all label encodings"
 RULE = ("cases = label matrix (samples 1-9 x annotators 1-5 x classes 2-4, any missing pattern, encodings float/NaN, int/-1, "
-        "object-number/None, object-string/None, str/'zz', str/'') x weights {None, non-negative matrix incl. zeros, NaN at random places} "
+        "object-number/None, object-string/None, str/'zz', str/'') x weights {None, non-negative matrix incl. zeros, NaN at random places, near-equal sums on large / tiny scales} "
         "x explicit / inferred classes x the four normalize modes x 1-D / 2-D y_pred; contracts compare: vote vectors with the "
         "nested-loop sum of w*[y==c]; majority vote = a class with maximal vote for labelled rows and the sentinel for rows "
         "without label; confusion matrices with plain loops (raw counts for normalize=None; counts / row, column, total sums "
@@ -158,7 +158,7 @@ def gen_cases(tier, seed):
     n = {"quick": 1200, "thorough": 100000}[tier]
     encs = list(ENC)
     return [{"id": "c17-%05d" % i, "seed": stable_hash(seed, "C17", i), "enc": encs[i % len(encs)],
-             "wkind": ["none", "pos", "zeros", "nan"][(i // len(encs)) % 4],
+             "wkind": ["none", "pos", "zeros", "nan", "near"][(i // len(encs)) % 5],
              "normalize": [None, "true", "pred", "all"][(i // (4 * len(encs))) % 4],
              "explicit": bool(i % 2)} for i in range(n)]
 
@@ -186,6 +186,11 @@ def run_case(desc):
             W[rng.rand(n, A) < 0.4] = 0.0
         if desc["wkind"] == "nan":
             W[rng.rand(n, A) < 0.2] = np.nan
+        if desc["wkind"] == "near":      # vote sums that differ only in the last digits, on large and on tiny scales
+            scale = float(rng.choice([1.0, 12345.6, 1e-9]))
+            W = scale * (1.0 + rng.choice([0.0, 1e-7, -1e-7, 3e-6, 2.0 ** -50], size=(n, A)))
+            if scale == 1e-9:
+                W = rng.choice([1e-9, 3e-9, 2e-9], size=(n, A))
     cls_arg = classes if (desc["explicit"] or M.all()) else None
     one_d = A == 1 and rng.rand() < 0.5
     viol = []
